@@ -58,13 +58,58 @@ func (w *World) renderWalkers() []*ssa.Function {
 				}
 				for _, a := range c.Common().Args {
 					for _, f := range funcValues(stripChangeType(a)) {
-						out = append(out, w.unwrapBound(f)) // a method value (pass.visit) is analysed as the method
+						out = append(out, w.followDelegate(w.unwrapBound(f))) // a method value (pass.visit) is analysed as the method
 					}
 				}
 			}
 		}
 	}
 	return out
+}
+
+// followDelegate: a function that consists of one block ending in "return g(...)" with g a function of this module is
+// analysed as g (a closure that only forwards to a method).
+func (w *World) followDelegate(f *ssa.Function) *ssa.Function {
+	for depth := 0; depth < 4; depth++ {
+		if f == nil || len(f.Blocks) != 1 {
+			return f
+		}
+		b := f.Blocks[0]
+		ret, ok := b.Instrs[len(b.Instrs)-1].(*ssa.Return)
+		if !ok || len(ret.Results) == 0 {
+			return f
+		}
+		var call *ssa.Call
+		for _, ins := range b.Instrs {
+			if c, ok := ins.(*ssa.Call); ok {
+				if call != nil {
+					return f
+				}
+				call = c
+			}
+		}
+		if call == nil {
+			return f
+		}
+		g := call.Common().StaticCallee()
+		if g == nil || !w.InModule(g) || len(g.Blocks) == 0 {
+			return f
+		}
+		for i, rv := range ret.Results {
+			if len(ret.Results) == 1 {
+				if rv != ssa.Value(call) {
+					return f
+				}
+				continue
+			}
+			ex, ok := rv.(*ssa.Extract)
+			if !ok || ex.Tuple != ssa.Value(call) || ex.Index != i {
+				return f
+			}
+		}
+		f = g
+	}
+	return f
 }
 
 func stripChangeType(v ssa.Value) ssa.Value {
